@@ -2060,6 +2060,19 @@ class Interp:
         except TypeError:
             raise ExcRaised(Ref('builtin:TypeError'))
 
+    def _ext_is_callable(self, ref):
+        """Does ext:<dotted> name a class or function (something no plain value is equal to)? Known for the pure libraries by
+        looking, for results of calls never, for the rest by the capitalised-class / lower-case-function convention of a call target."""
+        if '(' in ref:
+            return False
+        parts_ = ref[4:].split('.')
+        if parts_[0] in _PURE_LIBS:
+            obj_ = _PURE_LIBS[parts_[0]]
+            for p_ in parts_[1:]:
+                obj_ = getattr(obj_, p_, None)
+            return callable(obj_) or isinstance(obj_, type(_re))
+        return ref in self.call_models or len(parts_) == 1
+
     def _compare(self, op, left, right, node):
         if isinstance(op, (ast.Is, ast.IsNot)):
             same_ = left is right or (isinstance(left, Ref) and isinstance(right, Ref) and left == right)
@@ -2102,6 +2115,10 @@ class Interp:
                 if not same_(x_, y_):
                     return self._compare(op, x_, y_, None)
             return _CMP[type(op)](len(left), len(right))
+        for x_, y_ in ((left, right), (right, left)):
+            if isinstance(x_, Ref) and x_.ref.startswith('ext:') and not isinstance(y_, (Ref, type(None), bool)) and not self._ext_is_callable(x_.ref):
+                # a library attribute whose value is not known here: equal or not cannot be told
+                raise Unmodelled(f'comparison of {y_!r} with the library value {x_.ref}')
         try:
             return _CMP[type(op)](left, right)
         except TypeError:
@@ -2690,6 +2707,8 @@ def _global_uncached(self, gref, n):
             for p_ in parts_[1:]:
                 obj_ = getattr(obj_, p_, None)
             if isinstance(obj_, (str, int, float)) and not isinstance(obj_, bool):
+                return obj_
+            if isinstance(obj_, (_dt.time, _dt.date, _dt.timedelta, _decimal.Decimal, _dt.timezone)):     # immutable values (time.min, datetime.max, ...)
                 return obj_
         try:
             return ext_constant(gref[4:])
